@@ -7,7 +7,7 @@ From Coq Require Import ZArith List.
 Import ListNotations.
 From V Require Import Valid.Hier Valid.Walk Valid.FlatRegion Valid.Run.
 From Coq Require Import Lia.
-From V Require Import Model.Pipe Model.PipeBounded Model.PipeBounded4 Model.Graph Model.Edits Model.Edits2 Model.JoinPath Model.Refine Model.CbPath Model.LoopEdit Model.LoopSpec Model.LoopPath Model.LoopPath2.
+From V Require Import Model.Pipe Model.PipeBounded Model.PipeBounded4 Model.Graph Model.Edits Model.Edits2 Model.JoinPath Model.Refine Model.CbPath Model.LoopEdit Model.LoopSpec Model.LoopPath Model.LoopPath2 Model.IbPath.
 
 Theorem C01_checker_sound :
   forall rw g h, c01_check rw g h = true -> PathEq rw g h.
@@ -186,6 +186,30 @@ Proof.
            latch sexit bv names g2 false).
 Qed.
 Print Assumptions C01_multi_header_loop_rotation_preserves_paths.
+
+(* the plain insertion with ONE successor, for ALL graphs (no bound): what join_tails_and_exits and
+   insert_SyntheticFill do during branch restructuring once the tail has a single header.
+   Edits.insert_block g new P [e] cls (tied to the code by C14's order-exact correspondence) keeps every
+   walk: an arc p -> e becomes p -> new -> e, the new synthetic block doing nothing *)
+Theorem C01_single_successor_insertion_preserves_paths :
+  forall g top new e0 preds cls g',
+    insert_block g new preds [e0] cls = Ok g' ->
+    NoDup preds /\ ~ In new preds ->
+    (forall p b, In p preds -> efind g p = Some b ->
+        NoDup (e_jt b) /\ ~ In new (e_jt b) /\ (forall c w t, e_kind b = EBranch c w t -> NoDup (map fst t))) ->
+    efind g new = None /\ new <> top /\ cls <> 100%Z ->
+    ~ In top (ekeys g) -> In e0 (ekeys g) ->
+    (forall x b t, efind g x = Some b -> In t (e_jt b) -> In t (ekeys g)) ->
+    forall n e e' ds tr st,
+      (exists b, efind g n = Some b /\ e_kind b = EPlain 100) ->
+      E Fn e e' ->
+      WTrace (ehier top g) (resolve_flat (ehier top g)) false n e ds tr st ->
+      WTrace (ehier top g') (resolve_flat (ehier top g')) false n e' ds tr st.
+Proof.
+  intros g top new e0 preds cls g'.
+  exact (insert_block_one_keeps_walks g top new e0 preds cls g' false).
+Qed.
+Print Assumptions C01_single_successor_insertion_preserves_paths.
 
 (* the generic reason (Model/Refine.v): an edit keeps every walk when each old block keeps its kind and
    arity and each way of leaving it leads, through a bridge that only touches fresh variables, to the
